@@ -11,6 +11,7 @@ Does not commit step 3/4 (review, then commit).
 import json, os, re, subprocess, sys
 
 X = sys.argv[1]
+POST = "--post" in sys.argv   # after a hand-resolved merge: only steps 3 and 4
 V, R = "/verif", "/repo"
 
 
@@ -28,6 +29,14 @@ GIT_ID = ["-c", "user.name=builder", "-c", "user.email=builder@example.invalid"]
 # 1. repo
 _, out = sh(["git", "-C", R, "log", "--reverse", "--format=%h %s", "main..slice-" + X])
 mapping = {}
+if POST:
+    _, mainlog = sh(["git", "-C", R, "log", "--format=%h %s", "main"])
+    bysubj = {l.split(" ", 1)[1]: l.split(" ", 1)[0] for l in mainlog.strip().split("\n")}
+    for line in [l for l in out.strip().split("\n") if l]:
+        h, subj = line.split(" ", 1)
+        if subj in bysubj:
+            mapping[h] = bysubj[subj]
+    out = ""
 for line in [l for l in out.strip().split("\n") if l]:
     h, subj = line.split(" ", 1)
     if not subj.startswith("fix:"):
@@ -42,7 +51,7 @@ for line in [l for l in out.strip().split("\n") if l]:
     print("repo:", h, "->", nh.strip(), subj)
 
 # 2. verif
-rc, o = sh(["git", "-C", V] + GIT_ID + ["merge", "--no-edit", "slice-" + X], check=False)
+rc, o = (0, "") if POST else sh(["git", "-C", V] + GIT_ID + ["merge", "--no-edit", "slice-" + X], check=False)
 if rc != 0:
     _, st = sh(["git", "-C", V, "diff", "--name-only", "--diff-filter=U"])
     conflicted = [f for f in st.strip().split("\n") if f]
